@@ -62,7 +62,7 @@ Proof. exact parse_text_total. Qed.
 Print Assumptions C07_total.
 
 (* the decoder facts the proofs rest on hold of Go's decoder as modelled in Model/Utf8.v *)
-Theorem C07_decoder : decoder_ok Utf8.decode.
+Theorem C07_decoder : decoder_ok Utf8M.decode.
 Proof. exact utf8_decoder_ok. Qed.
 Print Assumptions C07_decoder.
 
